@@ -18,7 +18,7 @@ class RefParseError(Exception):
 # ---------------------------------------------------------------------------
 # MODE SELECT parameter lists
 def gen_mode(rng, ten, mode="rand"):
-    f = D.ModeSense(ten)
+    f = D.ModeSense(ten, opaque_pages=False)  # the builders only know pages with a field table
     v = f.gen(rng, mode if mode != "rand" else ("page", None, "rand", 0))
     v["_block_descriptors"] = []
     data = D.strip_private(v)
